@@ -68,6 +68,8 @@ def parse_variants(kind, b, r):
     if ks in ("packet", "unknown"):
         out.append((kind, b[:1] + bytes([b[1] ^ 1]) + b[2:]))
         out.append((kind, b[:1] + bytes([(b[1] + 1) & 0xff]) + b[2:]))
+        for pt in r.sample([200, 201, 202, 203, 204, 205, 206, 207, 192, 255], 3):
+            if pt != b[1]: out.append((kind, b[:1] + bytes([pt]) + b[2:]))
     # 5. compound: another chain with the same length, first word and last word
     if ks == "compound":
         ts = tiling(b)
@@ -111,8 +113,23 @@ def parse_history(base, r, n):
             else:
                 seq.append(P(k, x))
         emit(kind, b)
+        if m["op"] == "pad" and len(b) >= 16 and len(b) % 4 == 0 and m["n"] + 4 <= 252 and m["n"] % 4 == 0:
+            # the same padded length, header word and SSRC with 4 octets less payload and 4 more padding
+            x = b[:2] + struct.pack(">H", (len(b) - 4) // 4 - 1) + b[4:len(b) - 4]
+            ks = f"(custom {kind[1]} {kind[2]})" if isinstance(kind, tuple) else kind
+            seq.append((f"(pad {ks} {gen.B(x)} {m['n'] + 4})", {"op": "pad", "kind": kind, "bytes": x, "n": m["n"] + 4}))
+            emit(kind, b)
         for k, x in vs[:7]:
             emit(k, x); emit(kind, b)
+        if m["op"] == "pad" and len(b) >= 4 and m["n"] % 4 == 0 and 4 <= m["n"] <= 248 and not (b[0] & 0x20):
+            # the padded packet parsed directly, then packets of the same length, header word and SSRC
+            # whose padding count says something else
+            n = m["n"]
+            pd = bytes([b[0] | 0x20, b[1]]) + struct.pack(">H", (be16(b, 2) + n // 4) & 0xffff) + b[4:] + bytes(n - 1) + bytes([n])
+            seq.append(P(kind, pd))
+            for v in (n + 4, max(4, n - 4), 1, n + 8):
+                if v != n and v < 256:
+                    seq.append(P(kind, pd[:-1] + bytes([v]))); seq.append(P(kind, pd))
         hist = [s[0][:400] for s in seq]
         for j, (qq, mm) in enumerate(seq):
             mm["history"] = hist[max(0, j - 2):j]
@@ -163,23 +180,31 @@ def build_history(base, r, n):
     """writer-side histories: (a) a refused write followed by another builder's write into a buffer
     as long as the refused size; (b) a builder followed by a same-shape sibling; (c) the same inside
     one compound (sizes are computed for all members before any is written)"""
-    cands = [(q, m) for q, m in base if m.get("op") == "build" and not any(k in m for k in DEP_KEYS)
+    cands = [(q, m) for q, m in base if m.get("op") == "build"
              and not m["cfg"].get("_big") and m["cfg"]["k"] not in ("chunk", "item", "fci") and len(q) < 6000]
     sized = [(q, m, size_of(m["cfg"])) for q, m in cands]
     sized = [x for x in sized if x[2]]
     if len(sized) < 2: return []
     out = []
 
-    def req(cfg, bufs, note):
-        expr = gen.render(cfg, r, "canon")
-        return (gen.build_req(expr, bufs), {"op": "build", "cfg": cfg, "expr": expr, "bufs": bufs, "style": "canon", "history_note": note})
+    def req(cfg, bufs, note, rt_first=False, style="canon"):
+        expr = gen.render(cfg, r, style)
+        return (gen.build_req(expr, bufs, rt_first), {"op": "build", "cfg": cfg, "expr": expr, "bufs": bufs, "style": style,
+                                                      "history_note": note, "rt_first": rt_first})
+
+    def inter(ca, cb, note, style="canon"):
+        ea, eb = gen.render(ca, r, style), gen.render(cb, r, style)
+        return (f"(interleave {ea} {eb})", {"op": "interleave", "cfgs": {"a": ca, "b": cb}, "history_note": note})
+
+    def has_fir(c):
+        return "'k': 'fir'" in repr(c)
 
     for _ in range(n):
         (qa, ma, na), (qb, mb, nb) = r.sample(sized, 2)
         if na == nb:
             continue
         # (a) A refused with OutputTooSmall(na); then B into na bytes (too small or too large for B)
-        out.append(req(ma["cfg"], [(na, "ee"), (na - 1, "pat")], "refused last"))
+        out.append(req(ma["cfg"], [(na, "ee"), (na - 1, "pat")], "refused last", rt_first=True))
         out.append(req(mb["cfg"], [(na, "ee"), (nb, "00"), (nb - 1, "ee")], "first buffer as long as the size just refused"))
         out.append(req(ma["cfg"], [(nb, "ee"), (na, "00")], "and back"))
     for _ in range(n):
@@ -188,7 +213,14 @@ def build_history(base, r, n):
         if c2 == ma["cfg"] or size_of(c2) != na: continue
         # (b) same shape, same size, other contents, same buffers
         bufs = [(na, "ee"), (na + 3, "00")]
-        out.append(req(ma["cfg"], bufs, "sibling 1")); out.append(req(c2, bufs, "sibling 2")); out.append(req(ma["cfg"], bufs, "sibling 1 again"))
+        st = r.choice(["canon", "default"])
+        out.append(req(ma["cfg"], bufs, "sibling 1", style=st)); out.append(req(c2, bufs, "sibling 2", style=st)); out.append(req(ma["cfg"], bufs, "sibling 1 again", style=st))
+        # (d) both sized first, both written (unchecked) afterwards
+        PK = ("app", "bye", "rr", "sr", "sdes", "unknown", "tfb", "pfb", "pb", "compound", "custom")
+        if not has_fir(ma["cfg"]) and ma["cfg"]["k"] in PK and na < 100000:
+            out.append(inter(ma["cfg"], c2, "interleaved siblings", st)); out.append(inter(c2, ma["cfg"], "interleaved siblings"))
+            (qb, mb, nb) = r.choice(sized)
+            if not has_fir(mb["cfg"]) and mb["cfg"]["k"] in PK and nb < 100000: out.append(inter(ma["cfg"], mb["cfg"], "interleaved pair"))
         # (c) both in one compound, in both orders (only unpadded members may be non-last)
         a0, b0 = copy.deepcopy(ma["cfg"]), copy.deepcopy(c2)
         if a0["k"] == "compound": continue
@@ -204,6 +236,42 @@ def build_history(base, r, n):
     return out
 
 
+def resplit(r, cc):
+    """a compound of the same total length and the same first member with one member more: four
+    octets taken from a BYE / APP / unknown member, an empty BYE (4 octets) inserted after the first"""
+    ms = copy.deepcopy(cc["members"])
+    if len(ms) < 2 or any(x["k"] == "compound" for x in ms): return None
+    for x in ms[1:]:
+        t = x["inner"] if x["k"] == "pb" else x
+        if t["k"] == "bye" and len(t["sources"]) >= 1: t["sources"] = t["sources"][:-1]; break
+        if t["k"] in ("app", "unknown") and len(t["data"]) >= 4: t["data"] = t["data"][:-4]; break
+    else:
+        return None
+    ms.insert(r.randint(1, len(ms)), {"k": "bye", "padding": 0, "sources": [], "reason": None, "reason_call": "reason"})
+    last = ms[-1]; t = last["inner"] if last["k"] == "pb" else last
+    if t["k"] == "bye" and not t["sources"] and ms[-2]["k"] != "compound":
+        pass
+    return {"k": "compound", "members": ms}
+
+
+def compound_history(base, r, n):
+    out = []
+    cands = [(q, m) for q, m in base if m.get("op") == "build" and m["cfg"]["k"] == "compound" and len(q) < 6000]
+    r.shuffle(cands)
+    for q, m in cands:
+        if len(out) >= 3 * n: break
+        c1 = m["cfg"]
+        n1 = size_of(c1)
+        if not n1: continue
+        c2 = resplit(r, c1)
+        if not c2 or size_of(c2) != n1: continue
+        for c in (c1, c2, c1):
+            expr = gen.render(c, r, "canon")
+            bufs = [(n1, "ee"), (n1 + 4, "00")]
+            out.append((gen.build_req(expr, bufs), {"op": "build", "cfg": c, "expr": expr, "bufs": bufs, "style": "canon", "history_note": "same length, other split"}))
+    return out
+
+
 def history_stream(pid, base, r, tier):
     n = 60 if tier == "quick" else 400
-    return parse_history(base, r, n) + build_history(base, r, n // 2)
+    return parse_history(base, r, n) + build_history(base, r, n // 2) + compound_history(base, r, n // 2)
